@@ -93,15 +93,17 @@ Section CRL.
   Proof.
     intros ew [alg iss this next entries exts] (Ha & Hi & He & Hx) Hs.
     cbn [t_alg t_issuer t_entries t_exts] in *.
-    unfold parse_tbs, build_tbs in *. cbn [t_alg t_issuer t_this t_next t_entries t_exts] in *.
-    set (pn := match next with Some n => [enc_time n] | None => [] end) in *.
+    set (pn := match next with Some n => [enc_time n] | None => [] end).
     set (pe := match entries with
                | [] => if ew then [(ID_SEQUENCE, [])] else []
-               | _ :: _ => [(ID_SEQUENCE, write_all (map (enc_entry T enc_time) entries))]
-               end) in *.
-    set (px := match exts with [] => [] | _ :: _ => [(ID_CTX0_CONS, tlv ID_SEQUENCE (write_all (map enc_ext exts)))] end) in *.
-    assert (Hlow : forall p, In p ([(ID_INTEGER, [1]); alg; iss; enc_time this] ++ pn ++ pe ++ px) -> low_tag (fst p)).
-    { intros p Hp. apply in_app_or in Hp. destruct Hp as [Hp|Hp].
+               | e0 :: es0 => [(ID_SEQUENCE, write_all (map (enc_entry T enc_time) (e0 :: es0)))]
+               end).
+    set (px := match exts with [] => [] | x0 :: xs0 => [(ID_CTX0_CONS, tlv ID_SEQUENCE (write_all (map enc_ext (x0 :: xs0))))] end).
+    set (elems := [(ID_INTEGER, [1]); alg; iss; enc_time this] ++ pn ++ pe ++ px).
+    assert (Hb : build_tbs T enc_time ew (mkTbs alg iss this next entries exts) = tlv ID_SEQUENCE (write_all elems)) by reflexivity.
+    rewrite Hb in Hs. unfold parse_tbs. rewrite Hb.
+    assert (Hlow : forall p, In p elems -> low_tag (fst p)).
+    { unfold elems. intros p Hp. apply in_app_or in Hp. destruct Hp as [Hp|Hp].
       - destruct Hp as [<-|[<-|[<-|[<-|[]]]]];
           [apply low_const; reflexivity|rewrite Ha; apply low_const; reflexivity|rewrite Hi; apply low_const; reflexivity|apply time_low].
       - apply in_app_or in Hp. destruct Hp as [Hp|Hp].
@@ -110,7 +112,7 @@ Section CRL.
         { unfold pe in Hp. destruct entries; [destruct ew; [destruct Hp as [<-|[]]; apply low_const; reflexivity|destruct Hp]|].
           destruct Hp as [<-|[]]. apply low_const. reflexivity. }
         unfold px in Hp. destruct exts; [destruct Hp|]. destruct Hp as [<-|[]]. apply low_const. reflexivity. }
-    rewrite (unmarshal_sequence_tlv _ Hlow Hs). cbn [obind app].
+    rewrite (unmarshal_sequence_tlv elems Hlow Hs). unfold elems. cbn [obind app].
     pose proof (small_tlv _ _ Hs) as Hw.
     change (negb (ID_INTEGER =? ID_INTEGER)) with false. rewrite Ha, Hi.
     change (negb (ID_SEQUENCE =? ID_SEQUENCE)) with false. rewrite (time_id this). cbn [negb orb].
@@ -118,19 +120,6 @@ Section CRL.
     (* the three optional parts *)
     assert (Hin : forall p, In p (pn ++ pe ++ px) -> small (snd p)).
     { intros p Hp. apply (small_write_all _ Hw p). right. right. right. right. exact Hp. }
-    assert (Hent : forall r,
-      match pe ++ r with
-      | (i, c) :: r' => if i =? ID_SEQUENCE
-                        then do l <- elems_of c; do es <- all_ok (map (dec_entry T dec_time) l); Ok (es, r')
-                        else Ok ([], pe ++ r)
-      | [] => Ok ([], [])
-      end = match r with
-            | (i, c) :: _ => if i =? ID_SEQUENCE then Err 0 else Ok (entries, r)
-            | [] => Ok (entries, r)
-            end \/ pe <> []).
-    { intro r. destruct pe; [|right; discriminate]. left. cbn [app]. unfold pe in *.
-      assert (entries = []) as -> by (destruct entries; [reflexivity|discriminate]).
-      destruct r as [|[i c] r']; [reflexivity|]. destruct (i =? ID_SEQUENCE); reflexivity. }
     assert (Hpe : forall r, (forall i c r', r = (i, c) :: r' -> (i =? ID_SEQUENCE) = false) ->
       match pe ++ r with
       | (i, c) :: r' => if i =? ID_SEQUENCE
@@ -173,7 +162,6 @@ Section CRL.
       apply dec_enc_exts; [exact Hx|exact (small_tlv _ _ Hsx)]. }
     assert (Hpxhead : forall i c r', px = (i, c) :: r' -> (i =? ID_SEQUENCE) = false).
     { intros i c r' E. unfold px in E. destruct exts; [discriminate|]. injection E as <- _ _. reflexivity. }
-    clear Hent.
     destruct next as [n|]; unfold pn; cbn [app].
     - rewrite (time_id n), time_rt. cbn [obind]. rewrite (Hpe px Hpxhead). cbn [obind]. rewrite Hpx. reflexivity.
     - assert (Hnot : match pe ++ px with
